@@ -221,6 +221,13 @@ def c16_oracle(full, io, b):
             if s and not s.startswith("!") and ("[" + raw + "]") not in dec(s):
                 out.append(fail(v, h, "str", f"str(url) = {dec(s)!r} does not bracket the IPv6 host {raw!r}", "ipv6-brackets"))
         f = full[n].split("\t")
+        if f[0] == "hre":
+            src = int(f[2])
+            a, c, d = v.get(src, "raw_host"), v.get(h, "raw_host"), v.get(src, "host")
+            if a is not None and c is not None and not a.startswith("!") and not c.startswith("!") and a != c:
+                out.append(fail(v, h, "raw_host", f"the decoded host {pretty_out(d)} re-encodes to raw_host {pretty_out(c)}, the URL it was read from has raw_host {pretty_out(a)}",
+                                "host-reencode", also=[v.n_of(src, "raw_host")]))
+            continue
         # hostile hosts through build()/with_host()
         arg = None
         if f[0] == "mod" and f[3] == "with_host":
@@ -279,6 +286,11 @@ def c16_streams(rng, tier, budget):
             st2.obs_all(h, C16_OBS)
             r = st2.rt(h)
             st2.obs_all(r, ["raw_host", "str"])
+            # "the decoded host re-encodes to the same raw host": u.with_host(u.host)
+            st2.obs_all(h, ["host"])
+            k = st2.hre(h)
+            st2.obs_all(k, ["raw_host", "host"])
+            st2.add("tag\thre\t%d\t%d" % (k, h))
     for v6 in ["::1", "2001:db8::1", "fe80::1%eth0", "FE80::1%Eth0", "1:2:3:4:5:6:7:8", "::ffff:1.2.3.4"]:
         for sc, dp in (("http", 80), ("https", 443), ("ws", 80), ("ftp", 21), ("x", None)):
             for ui in ("", "u@", "u:p@"):
@@ -744,12 +756,12 @@ def c19_streams(rng, tier, budget):
 def c19_extra(scratch, rng, tier, budget):
     import extras
     r1 = extras.run_faults(scratch, tier)
-    r2 = extras.run_dyn_probe(scratch, "C19")
-    r1["failures"] = r1.get("failures", []) + r2.get("failures", [])
-    for k, v in r2.get("stats", {}).items():
-        r1.setdefault("stats", {})[k] = r1.get("stats", {}).get(k, 0) + v
-    r1["samples"] = r1.get("samples", []) + r2.get("samples", [])
-    r1["notes"] = r1.get("notes", []) + r2.get("notes", [])
+    for r2 in (extras.run_dyn_probe(scratch, "C19"), extras.run_dynbuild_probe(scratch, "C19")):
+        r1["failures"] = r1.get("failures", []) + r2.get("failures", [])
+        for k, v in r2.get("stats", {}).items():
+            r1.setdefault("stats", {})[k] = r1.get("stats", {}).get(k, 0) + v
+        r1["samples"] = r1.get("samples", []) + r2.get("samples", [])
+        r1["notes"] = r1.get("notes", []) + r2.get("notes", [])
     return r1
 
 
